@@ -111,8 +111,14 @@ WORK_B = [
 ]
 
 
-def e2e_configs():
+def e2e_configs(which='c17'):
     out = []
+    if which == 'c04':
+        for mod in ('klepto', 'safe'):
+            for alg in ('no', 'inf', 'lru', 'mru'):
+                for arch in ('file', 'dir', 'sql', 'filejson', 'dirjson', 'filesrc', 'dirsrc', 'dirfast'):
+                    out.append((mod, alg, arch, 'stringmap(flat=False)'))
+        return out
     for mod in ('klepto', 'safe'):
         for alg in ('no', 'inf', 'lru', 'lfu', 'mru', 'rr'):
             for arch in ('file', 'dir', 'sql'):
@@ -134,6 +140,16 @@ def _mk(mod, alg, arch, kmname, root):
         a = ka.file_archive(name + '.pkl', cached=True)
     elif arch == 'dir':
         a = ka.dir_archive(name + '_d', cached=True)
+    elif arch == 'filejson':
+        a = ka.file_archive(name + '.json', cached=True, protocol='json')
+    elif arch == 'dirjson':
+        a = ka.dir_archive(name + '_dj', cached=True, protocol='json')
+    elif arch == 'filesrc':
+        a = ka.file_archive(name + '_s.py', cached=True, serialized=False)
+    elif arch == 'dirsrc':
+        a = ka.dir_archive(name + '_ds', cached=True, serialized=False)
+    elif arch == 'dirfast':
+        a = ka.dir_archive(name + '_df', cached=True, compression=2)
     else:
         a = ka.sqltable_archive('sqlite:///%s.db?table=memo' % name, cached=True)
     kw = {'cache': a, 'keymap': km}
@@ -148,9 +164,9 @@ def _mk(mod, alg, arch, kmname, root):
     return dec(f), calls
 
 
-def e2e_mode(phase, root):
+def e2e_mode(phase, root, which='c17'):
     out = {}
-    for cfg in e2e_configs():
+    for cfg in e2e_configs(which):
         W, calls = _mk(*cfg, root=root)
         work = WORK if phase == 'write' else WORK_B
         results = []
@@ -170,4 +186,4 @@ if __name__ == '__main__':
     if mode == 'keys':
         keys_mode(sys.argv[2], sys.argv[3] == 'nohash')
     else:
-        e2e_mode(mode, sys.argv[2])
+        e2e_mode(mode, sys.argv[2], sys.argv[3] if len(sys.argv) > 3 else 'c17')
